@@ -12,8 +12,12 @@
    is printed to that many digits).  Outside of this domain [frac] rounds the
    decimal half-to-even, which is an idealisation of CPython's correctly rounded
    binary->decimal conversion; theorems and generators of C05 stay inside. *)
+From Coq Require Import Ascii String.
 From Emmet Require Import lib.Base.
 Local Open Scope N_scope.
+
+(* string literals of the models: "rgba(" as a list of code points *)
+Definition lit (s : string) : str := List.map N_of_ascii (list_ascii_of_string s).
 
 (* ------------------------------------------------------------------ decimals *)
 Record dec := mkDec { dneg : bool; dmant : N; dexp : nat }.
